@@ -150,18 +150,28 @@ class Sim:
         """Applies a mutating op to the real network and (if well-formed) the model.
         Returns ("ok", None) | ("raised", exception)."""
         k = op[0]
+        if k != "add_path" and _has_invalid(op):
+            # a call with an invalid argument (None as node, truncated triple): it may raise after having
+            # changed the graph; no claim about the outcome, the caller re-synchronises the model
+            try:
+                self._apply_invalid(op)
+            except Exception as e:
+                return ("raised", e)
+            return ("invalid-accepted", None)
+        gen = op[-1] == "$gen"  # bulk arguments passed as one-shot iterators (the API takes Iterables)
+        it = (lambda xs: (x for x in xs)) if gen else (lambda xs: xs)
         if k == "add_node":
             self.net.add_node(self.obj(op[1]))
             self.model.add_node(op[1])
         elif k == "add_nodes":
-            self.net.add_nodes([self.obj(t) for t in op[1]])
+            self.net.add_nodes(it([self.obj(t) for t in op[1]]))
             for t in op[1]:
                 self.model.add_node(t)
         elif k == "add_link":
             self.net.add_link(self.obj(op[1]), self.obj(op[2]), self.obj(op[3]))
             self.model.add_link(op[1], op[2], op[3])
         elif k == "add_links":
-            self.net.add_links([(self.obj(a), self.obj(b), self.obj(c)) for a, b, c in op[1]])
+            self.net.add_links(it([(self.obj(a), self.obj(b), self.obj(c)) for a, b, c in op[1]]))
             for a, b, c in op[1]:
                 self.model.add_link(a, b, c)
         elif k == "add_origin":
@@ -171,7 +181,7 @@ class Sim:
             self.net.add_destination(self.obj(op[1]), self.obj(op[2]))
             self.model.add_destination(op[1], op[2])
         elif k == "add_path":
-            path = [self.obj(t) for t in op[1]]
+            path = it([self.obj(t) for t in op[1]])
             try:
                 if op[2] is None and op[3] is None:
                     self.net.add_path(path)
@@ -184,6 +194,17 @@ class Sim:
         else:
             raise ValueError(op)
         return ("ok", None)
+
+    def _apply_invalid(self, op):
+        k = op[0]
+        if k == "add_nodes":
+            self.net.add_nodes([self.obj(t) for t in op[1]])
+        elif k == "add_link":
+            self.net.add_link(self.obj(op[1]), self.obj(op[2]), self.obj(op[3]))
+        elif k == "add_links":
+            self.net.add_links([tuple(self.obj(t) for t in tr) for tr in op[1]])
+        else:
+            raise ValueError(op)
 
     # ---- observation of the real graph as plain data
     def graph_snapshot(self):
@@ -201,8 +222,6 @@ class Sim:
             l = data.get("link")
             if not isinstance(l, sut.Link):
                 problems.append(f"edge ({u!r},{v!r}) carries {l!r}, not a Link")
-            if set(data) - {"link"}:
-                problems.append(f"edge ({u!r},{v!r}) has extra attributes {sorted(data)}")
             edges[(self.tok.get(id(u), "?"), self.tok.get(id(v), "?"))] = self.tok.get(id(l), "?")
         for n, data in g.nodes(data=True):
             t = self.tok.get(id(n), "?")
@@ -210,8 +229,6 @@ class Sim:
                 origin[t] = self.tok.get(id(data["origin"]), "?")
             if "destination" in data:
                 dest[t] = self.tok.get(id(data["destination"]), "?")
-            if set(data) - {"origin", "destination"}:
-                problems.append(f"node {n!r} has extra attributes {sorted(data)}")
         return nodes, edges, origin, dest, problems
 
     def resync_model(self):
@@ -221,3 +238,16 @@ class Sim:
         self.model = m
 
 
+
+
+def _has_invalid(op):
+    def bad(t):
+        return isinstance(t, str) and t == "$none"
+
+    if op[0] == "add_nodes":
+        return any(bad(t) for t in op[1])
+    if op[0] == "add_link":
+        return bad(op[1]) or bad(op[3])
+    if op[0] == "add_links":
+        return any(len(tr) != 3 or bad(tr[0]) or bad(tr[2]) for tr in op[1])
+    return False
